@@ -58,7 +58,7 @@ Report(tag, s) == IF s = {} THEN TRUE ELSE PrintT(<<tag, Cardinality(s), CHOOSE 
 CoveredDemo == Consumed /\ Report("MISSING-SINGLE", MissingSingles)     \* binding demo: tiny inventory, no plausibility floor
 Covered ==
     /\ Consumed
-    /\ IF C13ReqHonest(Inv, NPool, FullClasses) THEN TRUE ELSE PrintT(<<"DISHONEST-REQ", 0>>) /\ FALSE
+    /\ IF C13ReqHonest(Inv, Pool, FullClasses) THEN TRUE ELSE PrintT(<<"DISHONEST-REQ", 0>>) /\ FALSE
     /\ IF C13InventoryPlausible(Inv, MinPerClass, Anchors) THEN TRUE ELSE PrintT(<<"INVENTORY-SHRUNK", 0>>) /\ FALSE
     /\ Report("MISSING-SINGLE", MissingSingles)
     /\ Report("MISSING-PAIR", MissingPairs)
